@@ -1,9 +1,13 @@
 (* C13 — rendered time = strftime of the instant + exact fractional digits.
    This file holds only the property theorems (each closed by [exact]) and their assumptions.
    Model: Time/TimeModel.v (StringFromTime + TimestampFormatter, libc as an oracle).
-   Spec and hypotheses (H1 H2 H2s H3 zone_gmt zone_ok wf_items): Time/TimeSpec.v. *)
+   Spec and hypotheses (H1 H2 H2s H3 zone_gmt zone_ok wf_items): Time/TimeSpec.v.
+   The model flag [strict] selects the code variant: true = the repaired constructor (init() scans
+   for conversions that embed the time of day but are not patched in the cached string, the
+   constructor rejects a repeated specifier), false = the pinned earlier behaviour.  The variant that
+   stands for /repo is TieC13.src_strict (T-src, last theorem of this file). *)
 From Coq Require Import List NArith ZArith.
-From Quill Require Import Time.TimeModel Time.TimeSpec Time.TimeStrings Time.TimeInit Time.TimeDigits
+From Quill Require Import Time.TimeModel Time.TimeSpec Time.TimeStrings Time.TimeStrict Time.TimeInit Time.TimeDigits
   Time.TimeProofs Time.TimeTF Time.TimeRefute Time.TimeMain.
 Import ListNotations.
 
@@ -12,11 +16,12 @@ Import ListNotations.
    directly before a literal starting with H M S I k l s r R T X Q; %s only under H2s and for
    ten-digit epochs) and EVERY sequence of non-negative instants - increasing, repeated or going
    backwards - the constructor accepts the pattern and each rendering equals strftime of the two
-   segments at that instant with the specifier replaced by the exact zero-padded fraction. *)
+   segments at that instant with the specifier replaced by the exact zero-padded fraction.
+   Both code variants. *)
 Theorem C13_gmt : forall strf sodf off zid,
   H1 strf -> H2 strf sodf off -> H3 strf off zid -> zone_gmt off zid ->
-  forall items1 k items2 nss, wf_items items1 -> wf_items items2 -> instants_ok items1 items2 strf nss ->
-  renders_like_strftime false strf sodf items1 k items2 nss.
+  forall strict items1 k items2 nss, wf_items items1 -> wf_items items2 -> instants_ok items1 items2 strf nss ->
+  renders_like_strftime strict false strf sodf items1 k items2 nss.
 Proof. exact c13_gmt. Qed.
 Print Assumptions C13_gmt.
 
@@ -24,8 +29,8 @@ Print Assumptions C13_gmt.
    only changes at epoch-aligned quarter hours and whose offsets are multiples of 900 s. *)
 Theorem C13_local : forall strf sodf off zid,
   H1 strf -> H2 strf sodf off -> H3 strf off zid -> zone_ok off zid ->
-  forall items1 k items2 nss, wf_items items1 -> wf_items items2 -> instants_ok items1 items2 strf nss ->
-  renders_like_strftime true strf sodf items1 k items2 nss.
+  forall strict items1 k items2 nss, wf_items items1 -> wf_items items2 -> instants_ok items1 items2 strf nss ->
+  renders_like_strftime strict true strf sodf items1 k items2 nss.
 Proof. exact c13_local. Qed.
 Print Assumptions C13_local.
 
@@ -41,52 +46,97 @@ Proof. exact c13_frac. Qed.
 Print Assumptions C13_frac.
 
 (* Two specifiers of different kinds anywhere in the pattern, or a %X conversion, make the
-   constructor throw. *)
+   constructor throw (both variants); the repaired constructor also throws when a specifier occurs
+   twice, whatever stands around and between the two occurrences. *)
 Theorem C13_rejects :
-  (forall items k1 k2, k1 <> k2 -> In (Frac k1) items -> In (Frac k2) items ->
-     tf_init (flat items) = inr ErrExclusive) /\
-  (forall items1 k items2,
+  (forall strict items k1 k2, k1 <> k2 -> In (Frac k1) items -> In (Frac k2) items ->
+     tf_init strict (flat items) = inr ErrExclusive) /\
+  (forall strict items1 k items2,
      Forall wf_itemX items1 -> Forall wf_itemX items2 ->
      adj_ok sp_special items1 = true -> adj_ok sp_special items2 = true ->
      In (Conv [88%N]) (match k with Some _ => items1 ++ items2 | None => items1 end) ->
-     tf_init (pattern_of items1 k items2) = inr ErrX).
+     tf_init strict (pattern_of items1 k items2) = inr ErrX) /\
+  (forall a k b c, tf_init true (flat (a ++ Frac k :: b ++ Frac k :: c)) = inr ErrExclusive).
 Proof. exact c13_rejects. Qed.
 Print Assumptions C13_rejects.
 
-(* D8: %c %Ec %EX %OH %OM %OS %OI are cached like date fields. Whatever libc is, if such a
-   conversion renders differently at two instants of one recalculation window, the second
+(* The repaired constructor rejects the conversions that embed the time of day and that the cache
+   cannot patch.  (1) In the classified universe: a pattern over well-formed items, %X and the fine
+   conversions %c %Ec %EX %OH %OM %OS %OI that contains a fine one throws.  (2) At the level of
+   StringFromTime::init, for ANY tokens (literals without '%', conversions '%' flags/width/E/O final
+   byte, specifiers): a conversion whose final byte is c, or one of H M S I k l s r R T X behind a
+   non-empty run of the bytes - _ 0 ^ # 1..9 E O, throws.  (3) The scan computes exactly "some
+   conversion is such a one" on every token list.  (4) Whatever the bytes of the pattern: when the
+   constructor accepts, each segment handed to StringFromTime holds no "%X", passes the scan, and
+   the specifier does not occur again behind its first occurrence. *)
+Theorem C13_rejects_unpatchable :
+  (forall items1 k items2 b,
+     Forall wf_itemF items1 -> Forall wf_itemF items2 ->
+     adj_ok sp_special items1 = true -> adj_ok sp_special items2 = true ->
+     classify b = Some Fine ->
+     In (Conv b) (match k with Some _ => items1 ++ items2 | None => items1 end) ->
+     tf_init true (pattern_of items1 k items2) = inr ErrX) /\
+  (forall items p c,
+     Forall tok_item items -> Forall (fun x => memN x skip_chars = true) p ->
+     (c = 99%N \/ (p <> [] /\ memN c time_chars = true)) ->
+     In (Conv (p ++ [c])) items -> sft_init true (flat items) = None) /\
+  (forall items, Forall tok_item items -> unpatchable (flat items) = existsb fine_item items) /\
+  (forall f x, tf_init true f = inl x ->
+     (tspec x = None /\ clean_segment f) \/
+     (exists k f1 f2, tspec x = Some k /\ f = f1 ++ spec_name k ++ f2 /\
+        clean_segment f1 /\ clean_segment f2 /\ find_sub (spec_name k) f2 = None)).
+Proof. exact c13_rejects_unpatchable. Qed.
+Print Assumptions C13_rejects_unpatchable.
+
+(* D8 (fixed by the repair), kept as documentation of the PINNED behaviour: %c %Ec %EX %OH %OM %OS %OI.
+   strict = true: init throws.  strict = false: they are cached like date fields; whatever libc is,
+   if such a conversion renders differently at two instants of one recalculation window, the second
    rendering is stale. *)
-Theorem C13_fine_refuted :
+Theorem C13_fine_pinned :
   Forall (fun b => classify b = Some Fine) fine_bodies /\
+  (forall b, In b fine_bodies -> sft_init true (37%N :: b) = None) /\
   forall strf sodf local b t1 t2, In b fine_bodies ->
     (0 <= t1 <= t2)%Z -> (t2 < next_recalc local t1)%Z ->
-    strf (37%N :: b) t1 <> strf (37%N :: b) t2 ->
-    exists st, sft_init (37%N :: b) = Some st /\
-               nth 1 (sft_run strf sodf local st [t1; t2]) [] <> strf (37%N :: b) t2.
-Proof. exact c13_fine_refuted. Qed.
-Print Assumptions C13_fine_refuted.
+    strf (37%N :: b) t1 <> strf (37%N :: b) t2 -> stale_second strf sodf local b t1 t2.
+Proof. exact c13_fine_pinned. Qed.
+Print Assumptions C13_fine_pinned.
+
+(* N3 (fixed by the repair), pinned behaviour: one of the glibc flags - _ 0 ^ # before one of
+   H M S I k l s r R T c (55 forms).  strict = true: init throws (the general rule is clause (2) of
+   C13_rejects_unpatchable).  strict = false: one cached part, stale like D8. *)
+Theorem C13_flagged_pinned :
+  (forall b, In b flagged_bodies -> sft_init true (37%N :: b) = None) /\
+  forall strf sodf local b t1 t2, In b flagged_bodies ->
+    (0 <= t1 <= t2)%Z -> (t2 < next_recalc local t1)%Z ->
+    strf (37%N :: b) t1 <> strf (37%N :: b) t2 -> stale_second strf sodf local b t1 t2.
+Proof. exact c13_flagged_pinned. Qed.
+Print Assumptions C13_flagged_pinned.
 
 (* D9: a zone whose offset changes at t = 960 (60 s off the quarter-hour grid): H2 holds, zone_ok
    does not, and "%H" at 900 then 960 shows "00" "00" where strftime gives "01" for the second. *)
 Theorem C13_offgrid_refuted :
   H2 d9_strf d9_sodf d9_off /\ ~ zone_ok d9_off (fun _ => 0%Z) /\
-  exists st, sft_init m_H = Some st /\
+  forall strict, exists st, sft_init strict m_H = Some st /\
     sft_run d9_strf d9_sodf true st [900; 960]%Z = [[48;48]; [48;48]]%N /\
     d9_strf m_H 960 = [48;49]%N.
 Proof. exact offgrid_refuted. Qed.
 Print Assumptions C13_offgrid_refuted.
 
-(* N1: the same specifier twice is accepted; the second one reaches strftime as text. *)
-Theorem C13_same_spec_refuted :
-  exists x b, tf_init (spec_name Qms ++ spec_name Qms) = inl x /\ tp2 x = Some b /\ tfmt b = spec_name Qms.
-Proof. exact same_spec_refuted. Qed.
-Print Assumptions C13_same_spec_refuted.
+(* N1 (fixed by the repair), pinned behaviour: the same specifier twice.  strict = true: the
+   constructor throws (the general rule is clause (3) of C13_rejects).  strict = false: accepted;
+   the second one reaches strftime as text. *)
+Theorem C13_same_spec_pinned :
+  (forall k, tf_init true (spec_name k ++ spec_name k) = inr ErrExclusive) /\
+  exists x b, tf_init false (spec_name Qms ++ spec_name Qms) = inl x /\ tp2 x = Some b /\ tfmt b = spec_name Qms.
+Proof. exact c13_same_spec_pinned. Qed.
+Print Assumptions C13_same_spec_pinned.
 
-(* N2: a literal %% directly before T (likewise r R), X or Q.. is not treated as an escape. *)
-Theorem C13_pct_refuted :
-  (exists st, sft_init [37;37;84]%N = Some st /\ parts st = [[37]; m_H; [58]; m_M; [58]; m_S]%N) /\
-  tf_init [37;37;88]%N = inr ErrX /\
-  (exists x, tf_init (37%N :: spec_name Qms) = inl x /\ tspec x = Some Qms /\ tfmt (tp1 x) = [37%N]).
+(* N2: a literal %% directly before T (likewise r R), X or Q.. is not treated as an escape (both
+   variants: the repair leaves the %% handling as it is). *)
+Theorem C13_pct_refuted : forall strict,
+  (exists st, sft_init strict [37;37;84]%N = Some st /\ parts st = [[37]; m_H; [58]; m_M; [58]; m_S]%N) /\
+  tf_init strict [37;37;88]%N = inr ErrX /\
+  (exists x, tf_init strict (37%N :: spec_name Qms) = inl x /\ tspec x = Some Qms /\ tfmt (tp1 x) = [37%N]).
 Proof. exact pct_refuted. Qed.
 Print Assumptions C13_pct_refuted.
 
@@ -103,8 +153,25 @@ Example C13_local_nonvacuous :
   H3 (mini 20700) (fun _ => 20700%Z) (fun _ => 0%Z) /\
   zone_ok (fun _ => 20700%Z) (fun _ => 0%Z) /\ wf_items ex_items1 /\ wf_items ex_items2.
 Proof. exact c13_local_nonvacuous. Qed.
-Example C13_gmt_example :
-  exists x, tf_init (pattern_of ex_items1 (Some Qms) ex_items2) = inl x /\
+Example C13_gmt_example : forall strict,
+  exists x, tf_init strict (pattern_of ex_items1 (Some Qms) ex_items2) = inl x /\
     nth 0 (tf_run (mini 0) (msod 0) false x [1000000000123456789; 1000000001000000000; 999999999000000001]%Z) []
     = [63;45;63;45;63;32;48;49;58;52;54;58;52;48;46;49;50;51;32;63]%N.
 Proof. exact c13_gmt_example. Qed.
+
+(* T-src: the variant that stands for /repo.  TieC13 proves, from the skeletons and facts
+   tools/srcfacts.py regenerates from the source tree on every run, that init() contains the scan
+   (with the model's character sets) and the constructor the repeated-specifier test, i.e.
+   src_strict = true; so the rejection rules above are statements about the code variant of /repo.
+   (On a tree without the repair TieC13 does not compile and this theorem is not discharged.) *)
+From Quill Require TieC13.
+Theorem C13_code_variant_rejects :
+  TieC13.src_strict = true /\
+  (forall a k b c, tf_init TieC13.src_strict (flat (a ++ Frac k :: b ++ Frac k :: c)) = inr ErrExclusive) /\
+  (forall items p c,
+     Forall tok_item items -> Forall (fun x => memN x skip_chars = true) p ->
+     (c = 99%N \/ (p <> [] /\ memN c time_chars = true)) ->
+     In (Conv (p ++ [c])) items -> sft_init TieC13.src_strict (flat items) = None) /\
+  (forall b, In b fine_bodies \/ In b flagged_bodies -> sft_init TieC13.src_strict (37%N :: b) = None).
+Proof. exact TieC13.c13_code_variant_rejects. Qed.
+Print Assumptions C13_code_variant_rejects.
